@@ -1,4 +1,5 @@
 import Driver.Proto
+import Driver.OpsFit
 /-
 Line-protocol driver: one JSON object per input line, one answer line per input line.
 Run with `lake env lean --run Driver/Main.lean < ops.jsonl`.
@@ -54,7 +55,13 @@ def handle (st : St) (j : Json) : Except String (St × String) := do
       let scope := match st.net[st.root]? with | some x => x.scope | none => []
       let v := sumOver (domFn st) scope (Ev.ofList row) (fun e' => (evalNet e' dens st.net).getD st.root 0)
       pure (st, showRat v)
-  | o => .error s!"unknown op {o}"
+  | o =>
+    -- extension handlers (one file per theory); first that owns the op answers
+    let exts : List (Option (Except String String)) := [
+      handleFit o j ]
+    match exts.findSome? id with
+    | some r => do let a ← r; pure (st, a)
+    | none => .error s!"unknown op {o}"
 
 partial def loop (h : IO.FS.Stream) (out : IO.FS.Stream) (st : St) : IO Unit := do
   let line ← h.getLine
@@ -64,11 +71,11 @@ partial def loop (h : IO.FS.Stream) (out : IO.FS.Stream) (st : St) : IO Unit := 
     loop h out st
   else
     match Json.parse t with
-    | .error e => out.putStrLn s!"bad-op json {e}"; loop h out st
+    | .error e => out.putStrLn s!"bad-op json {e}"; out.flush; loop h out st
     | .ok j =>
       match handle st j with
-      | .ok (st', ans) => out.putStrLn ans; loop h out st'
-      | .error e => out.putStrLn s!"bad-op {e}"; loop h out st
+      | .ok (st', ans) => out.putStrLn ans; out.flush; loop h out st'
+      | .error e => out.putStrLn s!"bad-op {e}"; out.flush; loop h out st
 
 def main : IO Unit := do
   let out ← IO.getStdout
